@@ -21,7 +21,9 @@ class MachineryError(RuntimeError):
     """TLC crashed / spec does not parse / output not understood (exit 2)."""
 
 
-def _java(extra_props=(), heap="6g"):
+def _java(extra_props=(), heap="6g", small=False):
+    if small:   # trace / table JVMs: single worker, small heap, no GC thread army
+        return ["java", "-XX:+UseSerialGC", f"-Xmx{heap}", "-Xss256m", *extra_props, "-cp", JAR, "tlc2.TLC"]
     return ["java", "-XX:+UseParallelGC", f"-Xmx{heap}", "-Xss512m", *extra_props, "-cp", JAR, "tlc2.TLC"]
 
 
@@ -29,7 +31,7 @@ _RE_STATES = re.compile(r"(\d+) states generated, (\d+) distinct states found, (
 _RE_DEPTH = re.compile(r"The depth of the complete state graph search is (\d+)")
 _RE_INV = re.compile(r"Error: Invariant (\S+) is violated")
 _RE_PROP = re.compile(r"Error: (Action property|Temporal properties?) (.*?)(?: is| were) violated", re.S)
-_RE_COV = re.compile(r"^<(\w+) line (\d+), col (\d+) to line (\d+), col (\d+) of module (\w+)>: (\d+):(\d+)", re.M)
+_RE_COV = re.compile(r"^<(\w+) line \d+, col \d+ to line \d+, col \d+ of module \w+(?: \([\d ]+\))?>: (\d+):(\d+)", re.M)
 
 
 def mc(module: str, cfg: str, *, workers: int | str = "auto", timeout: int = 1800,
@@ -92,7 +94,7 @@ def mc(module: str, cfg: str, *, workers: int | str = "auto", timeout: int = 180
     res["violated"] = viol
     cov = {}
     for m in _RE_COV.finditer(out):
-        name, *_rest, mod, dist, tot = m.groups()
+        name, dist, tot = m.groups()
         a = cov.setdefault(name, [0, 0])
         a[0] += int(dist)
         a[1] += int(tot)
@@ -123,10 +125,10 @@ def _validate_shard(module: str, cfg: str, traces: list, spec_dir: Path, env: di
         vf = work / "verdicts.json"
         tf.write_text(json.dumps(traces))
         props = ["-Dtlc2.tool.queue.IStateQueue=StateDeque"] if dfs else []
-        cmd = _java(props, heap="3g") + ["-workers", "1", "-metadir", str(work / "meta"),
+        cmd = _java(props, heap="3g", small=True) + ["-workers", "1", "-metadir", str(work / "meta"),
                                          "-noGenerateSpecTE", "-config", cfg, module + ".tla"]
         e = dict(os.environ)
-        e.update(TRACE_FILE=str(tf), VERDICT_FILE=str(vf))
+        e.update(TRACE_FILE=str(tf), VERDICT_FILE=str(vf), DIAG="0")
         if env:
             e.update({k: str(v) for k, v in env.items()})
         p = subprocess.run(cmd, cwd=spec_dir, env=e, capture_output=True, text=True, timeout=timeout)
@@ -180,7 +182,7 @@ def _table_shard(module, cfg, cases, spec_dir, env, timeout):
     try:
         tf, vf = work / "cases.json", work / "verdicts.json"
         tf.write_text(json.dumps(cases))
-        cmd = _java(heap="3g") + ["-workers", "1", "-metadir", str(work / "meta"),
+        cmd = _java(heap="3g", small=True) + ["-workers", "1", "-metadir", str(work / "meta"),
                                   "-noGenerateSpecTE", "-config", cfg, module + ".tla"]
         e = dict(os.environ)
         e.update(TRACE_FILE=str(tf), VERDICT_FILE=str(vf))
